@@ -365,7 +365,11 @@ def gen_random(rng, sid, size=None, nops=None, eqsize=None, xfer=True, weights=N
     # always end with full observations
     for wh in (["a", "b"] if xfer else ["a"]):
         ops += [["stats", wh], ["range", wh], ["scanall", wh, 1, 0]]
-    return {"id": sid, "size": size, "fork": rng.random() < 0.7, "expired": rng.random() < 0.5, "eqsize": eqsize, "ops": ops}
+    sc = {"id": sid, "size": size, "fork": rng.random() < 0.7, "expired": rng.random() < 0.5, "eqsize": eqsize, "ops": ops}
+    if sc["fork"] and rng.random() < 0.3:
+        # the engine instance the store is forked from was built with another table size (D47)
+        sc["parent_size"] = rng.choice([1 << 20, 4096, 61])
+    return sc
 
 
 def exhaustive_alphabet(size):
